@@ -83,4 +83,25 @@ structure Combo where
   retained  : Bool
 deriving DecidableEq, Repr, Inhabited
 
+/-- `cal.Date`: opaque here (only handed on to the rate resolution, which is C12's) -/
+abbrev CalDate := String
+
+/-- `tax.taxLine`: what `mapTaxLines` keeps of a `TaxableLine` (`GetTotal`, `GetTaxes`) -/
+structure TaxLine where
+  total : Amount
+  taxes : List Combo
+deriving DecidableEq, Repr, Inhabited
+
+/-- `tax.TotalCalculator` (the currency is kept as its code; `zero` is the unexported field) -/
+structure Calculator where
+  country  : String
+  rounding : String
+  currency : String
+  tags     : List String
+  date     : CalDate
+  lines    : List TaxLine
+  includes : String
+  zero     : Amount
+deriving Repr, Inhabited
+
 end GoblVerif.TaxTotals
